@@ -1,0 +1,16 @@
+//go:build verif
+
+package pdf
+
+import "sync/atomic"
+
+// verifSchedHook, when set, is called at the synchronisation points of the
+// Extractor cache protocol.  It exists only in builds with the "verif" tag
+// and lets a test-side controller run goroutines one step at a time.
+var verifSchedHook atomic.Pointer[func(point string, ref Reference)]
+
+func verifSched(point string, ref Reference) {
+	if f := verifSchedHook.Load(); f != nil {
+		(*f)(point, ref)
+	}
+}
